@@ -945,7 +945,10 @@ func (l *lexer) scanArithExpr(pos ast.Pos) int {
 				if r == ')' && l.paren <= l.arithParen && stray.IsZero() {
 					// neither closes a "(" of the expression nor is half of
 					// "))": the expression cannot be closed any more
-					stray = ast.NewPos(l.line, l.col-1)
+					stray = l.pos
+					if len(l.aliases) == 0 {
+						stray = ast.NewPos(l.line, l.col-1)
+					}
 				}
 				l.b.WriteByte(byte(r))
 			}
@@ -1649,6 +1652,11 @@ func (l *lexer) scanCmdSubst(r rune) bool {
 	case '`':
 		l.unread()
 		left := l.pos
+		if r == '$' && len(l.aliases) != 0 {
+			// positions are frozen during alias substitution: the "$"
+			// stands where everything else does
+			left = ast.NewPos(left.Line(), left.Col()+1)
+		}
 		// nest
 		ll := &lexer{
 			env:      l.env,
